@@ -2,7 +2,8 @@
    Directives: exactly those of ExtrOcamlBasic; nat, N, Z, positive stay inductive. *)
 Require Extraction.
 Require ExtrOcamlBasic.
-From Pika Require Import Gen.GenErased Model.Erased.
+From Pika Require Import Gen.GenErased Gen.GenErasedSteps Model.Erased Model.ErasedBlocks.
 Extraction Language OCaml.
 Extraction "m.ml" sstep fstep sxstep gstep gtrace xinit init destroy_all trace new_events is_empty sspec fspec spec_trace
-  sender_embeds function_inline class_ok ptr_size.
+  sender_embeds function_inline class_ok ptr_size
+  gblive sblive leaked_at_exit b0 function_misplaced.
